@@ -186,11 +186,7 @@ func C03(e *Env) {
 			if res.Oracle != nil {
 				witness["trace"] = res.Oracle.Trace
 			}
-			if res.Fail.Inconclusive {
-				run.Inconclusive(res.Fail.Error())
-			} else {
-				run.Violate(res.Fail.Rule, res.Fail.Feature, res.Fail.Detail, witness)
-			}
+			judgeModelFail(e, res.Fail, reqs, res.FailAt, "", res.Fail.Feature, res.Fail.Detail, witness)
 			return
 		}
 		coverCh <- res.Oracle.Cover
